@@ -387,7 +387,7 @@ pub fn run(ctx: &Ctx) -> ! {
     hp.max_initial = ctx.tier.pick(6, 12);
     let spec = RunSpec {
         shards: 16,
-        cases_per_shard: ctx.tier.pick(60, 900),
+        cases_per_shard: ctx.tier.pick(60, 300),
         cfg_len: CFG_LEN,
         min_ops: 4,
         max_ops: ctx.tier.pick(26, 60),
